@@ -6,7 +6,11 @@
 //! continuous assign, an always_comb (statement order, one-level if/else, sequential
 //! reassignment, read-before-write), an always_ff, a pure function call or an instance of one of
 //! four fixed children with one-bit ports (feed-through, registered, constant, partial
-//! feed-through).  Every design is rendered to Veryl and analysed by the real analyzer
+//! feed-through) or of a child taken from the two enumerated child classes "two inputs, one
+//! output" (`CT<m>`, all 4 transfers: the output depends on no / the first / the second / both
+//! inputs) and "two inputs, two outputs" (`CX<m>`, all 16 transfer matrices, among them the
+//! straight, the crossing and the converging ones), connected in both input orders so that the
+//! parent's feedback can enter through either input.  Every design is rendered to Veryl and analysed by the real analyzer
 //! (`post_pass2` = `comb_loop_detect::check`); the verdict "some `combinational_loop` diagnostic"
 //! is compared, in both directions, with a reference bit graph computed from the abstract design:
 //!
@@ -14,6 +18,8 @@
 //! * every process is evaluated symbolically in statement order (a read sees the most recent
 //!   write of the bit on the path, else the module-level bit; an `if` merges both arms and adds
 //!   the bits its condition reads to everything written inside it);
+//! * an instance contributes exactly the child's per-input transfer: output `j` depends on the
+//!   bit connected to input `k` iff the child's output `j` depends on its input `k`;
 //! * the design has a loop iff the graph has a cycle (self edges included).
 //!
 //! The family is restricted to the region in which the repository's non-ignored tests assert
@@ -132,6 +138,14 @@ enum Child {
     Konst,
     /// two inputs, `assign o = i0;` (i1 unused)
     Pf,
+    /// `CT<m>`: two inputs, one output; bit k of `m` set = `o` depends on input `ik`
+    /// (0: `o = 0`, 1: `o = i0`, 2: `o = i1`, 3: `o = i0 & i1`)
+    M21(u8),
+}
+
+/// Right-hand side of a child output that depends on the inputs in `mask`.
+fn transfer_expr(mask: u8) -> &'static str {
+    ["0", "i0", "i1", "i0 & i1"][(mask & 3) as usize]
 }
 
 #[derive(Clone, PartialEq, Eq, Debug, Hash, PartialOrd, Ord)]
@@ -142,6 +156,10 @@ enum P {
     Inst { kind: Child, ins: Vec<Bit>, out: Bit },
     /// `inst u: CVec (i: <var>, o: <var>)` with two-bit ports, `assign o = i;` inside
     InstVec { i: Var, o: Var },
+    /// `CX<m>`: two inputs, two outputs; `m & 3` = inputs `o0` depends on, `m >> 2` = inputs `o1`
+    /// depends on (straight `o0 = i0; o1 = i1` is m = 9, crossing `o0 = i1; o1 = i0` is m = 6,
+    /// converging `o0 = i0 & i1` is m & 3 = 3)
+    Inst2 { m: u8, ins: [Bit; 2], outs: [Bit; 2] },
 }
 
 #[derive(Clone, PartialEq, Eq, Debug, Hash)]
@@ -221,8 +239,42 @@ fn uses_call(d: &Design) -> bool {
     d.procs.iter().any(|p| match p {
         P::Assign(_, e) | P::Ff(_, e) => e_has(e),
         P::Comb(b) => b.iter().any(s_has),
-        P::Inst { .. } | P::InstVec { .. } => false,
+        P::Inst { .. } | P::InstVec { .. } | P::Inst2 { .. } => false,
     })
+}
+
+/// The enumerated children the designs instantiate (the fixed ones are always rendered).
+fn used_children(ds: &[Design]) -> String {
+    let mut m21: BTreeSet<u8> = BTreeSet::new();
+    let mut m22: BTreeSet<u8> = BTreeSet::new();
+    for d in ds {
+        for p in &d.procs {
+            match p {
+                P::Inst { kind: Child::M21(m), .. } => {
+                    m21.insert(*m);
+                }
+                P::Inst2 { m, .. } => {
+                    m22.insert(*m);
+                }
+                _ => {}
+            }
+        }
+    }
+    let mut out = String::new();
+    for m in m21 {
+        out.push_str(&format!(
+            "module CT{m} (\n    i0: input logic,\n    i1: input logic,\n    o: output logic,\n) {{\n    assign o = {};\n}}\n",
+            transfer_expr(m)
+        ));
+    }
+    for m in m22 {
+        out.push_str(&format!(
+            "module CX{m} (\n    i0: input logic,\n    i1: input logic,\n    o0: output logic,\n    o1: output logic,\n) {{\n    assign o0 = {};\n    assign o1 = {};\n}}\n",
+            transfer_expr(m & 3),
+            transfer_expr(m >> 2)
+        ));
+    }
+    out
 }
 
 const CHILDREN: &str = "module CFt (\n    i: input logic,\n    o: output logic,\n) {\n    assign o = i;\n}\nmodule CReg (\n    i_clk: input clock,\n    i_rst: input reset,\n    i: input logic,\n    o: output logic,\n) {\n    always_ff {\n        if_reset {\n            o = 0;\n        } else {\n            o = i;\n        }\n    }\n}\nmodule CKonst (\n    i: input logic,\n    o: output logic,\n) {\n    assign o = 0;\n}\nmodule CPf (\n    i0: input logic,\n    i1: input logic,\n    o: output logic,\n) {\n    assign o = i0;\n}\nmodule CVec (\n    i: input logic<2>,\n    o: output logic<2>,\n) {\n    assign o = i;\n}\n";
@@ -258,7 +310,20 @@ fn render_module(d: &Design, tag: &str) -> String {
                 var_name(*i),
                 var_name(*o)
             )),
+            P::Inst2 { m, ins, outs } => body.push_str(&format!(
+                "    inst u{n}: CX{m} (\n        i0: {},\n        i1: {},\n        o0: {},\n        o1: {},\n    );\n",
+                bit_text(ins[0], tag),
+                bit_text(ins[1], tag),
+                bit_text(outs[0], tag),
+                bit_text(outs[1], tag)
+            )),
             P::Inst { kind, ins, out } => match kind {
+                Child::M21(m) => body.push_str(&format!(
+                    "    inst u{n}: CT{m} (\n        i0: {},\n        i1: {},\n        o: {},\n    );\n",
+                    bit_text(ins[0], tag),
+                    bit_text(ins[1], tag),
+                    bit_text(*out, tag)
+                )),
                 Child::Ft => body.push_str(&format!(
                     "    inst u{n}: CFt (\n        i: {},\n        o: {},\n    );\n",
                     bit_text(ins[0], tag),
@@ -289,7 +354,7 @@ fn render_module(d: &Design, tag: &str) -> String {
 }
 
 fn render(d: &Design) -> String {
-    format!("{}{}", render_module(d, ""), CHILDREN)
+    format!("{}{}{}", render_module(d, ""), CHILDREN, used_children(std::slice::from_ref(d)))
 }
 
 fn render_batch(ds: &[Design]) -> String {
@@ -298,6 +363,7 @@ fn render_batch(ds: &[Design]) -> String {
         out.push_str(&render_module(d, &k.to_string()));
     }
     out.push_str(CHILDREN);
+    out.push_str(&used_children(ds));
     out
 }
 
@@ -430,6 +496,7 @@ fn driven_bits(p: &P) -> BTreeSet<Bit> {
             out.insert(*o);
         }
         P::InstVec { o, .. } => out.extend(var_bits(*o)),
+        P::Inst2 { outs, .. } => out.extend(outs.iter().copied()),
     }
     out
 }
@@ -466,7 +533,19 @@ fn reference(d: &Design) -> RefInfo {
                     env[*out as usize] = Some([ins[0]].into_iter().collect());
                 }
                 Child::Reg | Child::Konst => {}
+                Child::M21(m) => {
+                    env[*out as usize] = Some((0..2).filter(|k| m >> k & 1 == 1).map(|k| ins[k]).collect());
+                }
             },
+            P::Inst2 { m, ins, outs } => {
+                if outs[0] == outs[1] {
+                    info.invalid = true;
+                }
+                for j in 0..2 {
+                    let mask = m >> (2 * j) & 3;
+                    env[outs[j] as usize] = Some((0..2).filter(|k| mask >> k & 1 == 1).map(|k| ins[k]).collect());
+                }
+            }
         }
         for (b, v) in env.iter().enumerate() {
             if let Some(v) = v {
@@ -590,6 +669,10 @@ fn single_target_procs(t: Bit, srcs: &[Bit], level: u8) -> Vec<P> {
             if level >= 1 {
                 v.push(P::Inst { kind: Child::Pf, ins: vec![s, s2], out: t });
                 v.push(P::Inst { kind: Child::Pf, ins: vec![s2, s], out: t });
+                for m in [2u8, 3] {
+                    v.push(P::Inst { kind: Child::M21(m), ins: vec![s, s2], out: t });
+                    v.push(P::Inst { kind: Child::M21(m), ins: vec![s2, s], out: t });
+                }
                 v.push(P::Assign(d, E::Tern(s, s2, s2)));
             }
         }
@@ -704,6 +787,42 @@ fn two_target_procs(t1: Bit, t2: Bit, srcs: &[Bit]) -> Vec<P> {
     v
 }
 
+/// Every ordered pair of distinct bits of `srcs`.
+fn ordered_pairs(srcs: &[Bit]) -> Vec<[Bit; 2]> {
+    let mut v = vec![];
+    for &x in srcs {
+        for &y in srcs {
+            if x != y {
+                v.push([x, y]);
+            }
+        }
+    }
+    v
+}
+
+/// Instances of every two-input one-output child (all 4 transfers) that drive `t`, inputs
+/// connected to every ordered pair of `srcs`.
+fn m21_procs(t: Bit, srcs: &[Bit]) -> Vec<P> {
+    let mut v = vec![];
+    for m in 0..4u8 {
+        for ins in ordered_pairs(srcs) {
+            v.push(P::Inst { kind: Child::M21(m), ins: ins.to_vec(), out: t });
+        }
+    }
+    v
+}
+
+/// Instances of every two-input two-output child (all 16 transfer matrices) that drive `t0`, `t1`.
+fn m22_procs(t0: Bit, t1: Bit, srcs: &[Bit]) -> Vec<P> {
+    let mut v = vec![];
+    for m in 0..16u8 {
+        for ins in ordered_pairs(srcs) {
+            v.push(P::Inst2 { m, ins, outs: [t0, t1] });
+        }
+    }
+    v
+}
+
 struct Family {
     /// (name, processes of slot 1, processes of slot 2, processes of slot 3)
     subs: Vec<(String, Vec<Vec<P>>)>,
@@ -714,6 +833,19 @@ fn family(thorough: bool) -> Family {
     let all: Vec<Bit> = vec![0, 1, 2, 3, 4];
     let st = |t: Bit| single_target_procs(t, &all, level);
     let mut subs: Vec<(String, Vec<Vec<P>>)> = vec![];
+    // enumerated two-input children (first: their chunks lead every round of the interleaved
+    // order).  One process: loops closed directly at the instance, through either input.
+    let srcs3: Vec<Bit> = vec![0, 2, 4];
+    let mut inst2 = m21_procs(0, &all);
+    inst2.extend(m22_procs(0, 2, &all));
+    subs.push(("one_inst2".into(), vec![inst2]));
+    // two processes: the feedback returns through another process
+    subs.push(("two_m21_a0_b0".into(), vec![m21_procs(0, &all), ring_procs(2, &all)]));
+    // (quick: inputs and the third process restricted to one bit per variable)
+    let pair_srcs = if thorough { &all } else { &srcs3 };
+    subs.push(("two_m22_a0b0_c".into(), vec![m22_procs(0, 2, pair_srcs), ring_procs(4, pair_srcs)]));
+    // two instances feeding each other
+    subs.push(("two_m21_a0_m21_b0".into(), vec![m21_procs(0, pair_srcs), m21_procs(2, pair_srcs)]));
     // one process: only self loops
     let mut one = vec![];
     for t in [0u8, 1, 4] {
@@ -741,7 +873,6 @@ fn family(thorough: bool) -> Family {
         subs.push(("two_fullB_a0".into(), vec![full_target_procs(1, level), st(0)]));
     }
     // three processes: a ring needs every process to read another one's bit
-    let srcs3: Vec<Bit> = vec![0, 2, 4];
     if thorough {
         let st3 = |t: Bit| single_target_procs(t, &srcs3, 0);
         subs.push(("three_a0_b0_c".into(), vec![st3(0), st3(2), st3(4)]));
@@ -807,6 +938,7 @@ fn pinned_tests() -> Vec<(&'static str, Design, bool)> {
         ("pre-assign before conditional self reference", dz(vec![P::Comb(vec![asg(bit(a0), E::Const), S::If { cond: Cond::Free, t: vec![asg(bit(a0), E::In)], e: vec![asg(bit(a0), E::AndIn(a0))] }])]), false),
         ("bit-disjoint feedback: a[0] = c; c = a[1]", dz(vec![P::Assign(bit(a0), E::Bit(c)), P::Assign(bit(a1), E::In), P::Assign(bit(c), E::Bit(a1))]), false),
         ("dst-side bit-disjoint writes through instances", dz(vec![P::Inst { kind: Child::Ft, ins: vec![a0], out: b0 }, P::Inst { kind: Child::Pf, ins: vec![b0, c], out: b1 }, P::Comb(vec![asg(bit(a0), E::Const), asg(bit(a1), E::Bit(b1))])]), false),
+        ("ModuleCOk2 with its two-input child `x = a & ~b`", dz(vec![P::Inst { kind: Child::Ft, ins: vec![a0], out: b0 }, P::Inst { kind: Child::M21(3), ins: vec![c, b0], out: b1 }, P::Comb(vec![asg(bit(a0), E::Const), asg(bit(a1), E::Bit(b1))])]), false),
         ("src-side bit-disjoint reads in one block", dz(vec![P::Comb(vec![asg(bit(b0), E::Bit(a0)), asg(bit(b1), E::Bit(a1))]), P::Comb(vec![asg(bit(a0), E::In), asg(bit(a1), E::Bit(b0))])]), false),
         ("read before write observes the entry value: c = b; b = a", dz(vec![P::Comb(vec![asg(bit(c), E::Bit(b0)), asg(bit(b0), E::In)])]), false),
         ("opposite directions on disjoint bits", dz(vec![P::Comb(vec![asg(bit(a0), E::In), asg(bit(b0), E::Bit(a0)), asg(bit(b1), E::In), asg(bit(a1), E::Bit(b1))])]), false),
@@ -936,7 +1068,11 @@ fn construct_names(d: &Design) -> BTreeSet<&'static str> {
                     Child::Reg => "inst-registered",
                     Child::Konst => "inst-constant",
                     Child::Pf => "inst-partial-feedthrough",
+                    Child::M21(_) => "inst-2in-1out-child",
                 });
+            }
+            P::Inst2 { .. } => {
+                out.insert("inst-2in-2out-child");
             }
         }
     }
